@@ -596,7 +596,9 @@ func runC06(env *Env) {
 	if aggReplay(env, "C06") {
 		return
 	}
-	r := env.Rng
+	// util.go seeds by adding seed*gamma to a Weyl sequence, so the streams of nearby seeds are
+	// shifts of each other and data-dependent generators re-synchronise; start from a scrambled state
+	r := NewRng(env.Rng.U64() ^ 0xC06)
 	liveMR := intermediate.MaxRetries
 	liveME := int64(intermediate.MinExpiryTime)
 	emit := func(class, c string) {
